@@ -154,7 +154,11 @@ class Module(AuxDataContainer):
             super().__init__(*args)
 
         def add(self, v: _T) -> None:
-            if v._module is not None:
+            if v._module is self._node:
+                # Also while the module is being constructed (the same node
+                # listed twice), when it has no such attribute yet.
+                self.discard(v)
+            elif v._module is not None:
                 getattr(v._module, self._field).discard(v)
             v._module = self._node
             self._node._index_add(v)
